@@ -483,6 +483,69 @@ def build(run):
     run.add("dynamic-frame/forms", dynamic("forms"), kind="bounded")
     run.add("dynamic-frame/expressions", dynamic("exprs"), kind="bounded")
 
+    # ---- forms DERIVED from other forms by the form operators (0*a, 2*a, -a, a + a, a - a, ...), with the parent's caches warm or cold: every public
+    # observable, observed FIRST on a freshly derived form, must still have the same value after any other public call on that form (a stale value
+    # handed over from the parent and silently corrected by a later call is a change of the input seen by the caller)
+    def derived_forms():
+        def fresh(kind):
+            S.set_counters({k: 170 for k in S.COUNTER_FAMILIES})
+            m = S.new_mesh()
+            V = FunctionSpace(m, S.L(ufl.triangle, 1))
+            u, v, f, g, c = TrialFunction(V), TestFunction(V), Coefficient(V), Coefficient(V), Constant(m)
+            a = {"bilinear": lambda: c * f * inner(grad(u), grad(v)) * dx + u * v * ds(1), "linear": lambda: f * g * v * dx + c * v * dx(2),
+                 "functional": lambda: f * g * dx + c * f * ds}[kind]()
+            return a, dict(f=f, g=g, c=c, u=u, v=v, m=m)
+        warmers = {"cold": lambda a: None, "arguments": lambda a: a.arguments(), "coefficients": lambda a: a.coefficients(), "signature": lambda a: a.signature(),
+                   "all": lambda a: (a.arguments(), a.coefficients(), a.constants(), a.ufl_domains(), a.signature(), hash(a))}
+        derive = {"0*a": lambda a, T: 0 * a, "0.0*a": lambda a, T: 0.0 * a, "2*a": lambda a, T: 2 * a, "-a": lambda a, T: -a, "a+a": lambda a, T: a + a, "a-a": lambda a, T: a - a,
+                  "c*a": lambda a, T: T["c"] * a, "a+0*a": lambda a, T: a + 0 * a, "replace(a, f->g)": lambda a, T: ufl.replace(a, {T["f"]: T["g"]}),
+                  "a restricted to dx": lambda a, T: ufl.Form([it for it in a.integrals() if it.integral_type() == "cell"])}
+        observers = {"arguments": lambda b: tuple(map(repr, b.arguments())), "coefficients": lambda b: tuple(map(repr, b.coefficients())),
+                     "constants": lambda b: tuple(map(repr, b.constants())), "ufl_domains": lambda b: tuple(map(repr, b.ufl_domains())),
+                     "signature": lambda b: b.signature(), "empty": lambda b: b.empty(), "integrals": lambda b: tuple(map(repr, b.integrals())),
+                     "coefficient_numbering": lambda b: tuple(sorted((repr(k), v_) for k, v_ in b.coefficient_numbering().items())),
+                     "max_subdomain_ids": lambda b: repr(b.max_subdomain_ids()), "hash": lambda b: hash(b), "base_form_operators": lambda b: tuple(map(repr, b.base_form_operators()))}
+
+        def obs(fn, b):
+            try:
+                with warnings.catch_warnings():
+                    warnings.simplefilter("ignore")
+                    return ("value", fn(b))
+            except Exception as ex:  # noqa: BLE001
+                return ("raises", type(ex).__name__)
+        from ufl.algorithms import compute_form_data, extract_arguments, extract_coefficients
+        from ufl.domain import extract_domains
+        operations = dict(observers)
+        operations.update({"compute_form_data": lambda b: compute_form_data(b), "extract_domains": lambda b: extract_domains(b), "str": lambda b: str(b), "b == b": lambda b: b == b,
+                           "b.equals(b)": lambda b: b.equals(b), "extract_arguments": lambda b: extract_arguments(b), "extract_coefficients": lambda b: extract_coefficients(b),
+                           "expand_derivatives": lambda b: ufl.algorithms.expand_derivatives(b), "2*b": lambda b: 2 * b, "b + b": lambda b: b + b})
+        n = 0
+        for kind in ("bilinear", "linear", "functional"):
+            for wn, warm in warmers.items():
+                for dn, dv_ in derive.items():
+                    for on, ofn in observers.items():
+                        # the reference value: first observation on a freshly derived form
+                        a, T = fresh(kind)
+                        warm(a)
+                        ref = obs(ofn, dv_(a, T))
+                        for pn, pfn in operations.items():
+                            if pn == on:
+                                continue
+                            a, T = fresh(kind)
+                            warm(a)
+                            b = dv_(a, T)
+                            first = obs(ofn, b)
+                            obs(pfn, b)
+                            second = obs(ofn, b)
+                            n += 1
+                            if first != second or first != ref:
+                                return violated(f"{kind} form a (caches: {wn}), b = {dn}: b.{on} is {str(first[1])[:120]} when observed first, {str(second[1])[:120]} after the public call '{pn}' on b",
+                                                replay={"form": kind, "parent_caches": wn, "derived": dn, "observable": on, "operation": pn, "first": str(first)[:400], "after": str(second)[:400]},
+                                                reproduced=True, backend="exec(snapshot)")
+        return bounded_ok(n, f"3 forms x {len(warmers)} cache states x {len(derive)} derivations x {len(observers)} observables x {len(operations)} operations, each on fresh objects",
+                          sample="an observable of a derived form does not depend on which public call came first")
+    run.add("dynamic-frame/derived-forms-observables-do-not-depend-on-call-order", derived_forms, kind="bounded")
+
     # base forms (FormSum with weights, Action, Adjoint, Cofunction, Matrix): passes run through map_integrands, which rebuilds FormSums and
     # drops vanished components -- the input's component and weight lists must stay as they were
     def base_forms():
